@@ -215,6 +215,12 @@ def run(ctx):
     for k in range(ctx.budget(40, 600)):
         special = rng.random() < 0.7
         net = qlim_net(rng) if special else netgen.random_net(rng, dcline=False, slack_gen=rng.random() < 0.2)
+        if rng.random() < 0.3 and len(net.ext_grid) == 1:
+            # an out-of-service ext_grid stored before the in-service one, with another set point
+            e0 = int(net.ext_grid.index[0])
+            pp.create_ext_grid(net, int(net.ext_grid.bus.at[e0]), vm_pu=float(net.ext_grid.vm_pu.at[e0]), va_degree=float(net.ext_grid.va_degree.at[e0]))
+            net.ext_grid.at[e0, "in_service"] = False
+            net.ext_grid.at[e0, "vm_pu"] = 0.97 if float(net.ext_grid.vm_pu.at[e0]) > 1.0 else 1.04
         enforce = rng.random() < 0.7
         opts = dict(calculate_voltage_angles=rng.random() < 0.8, voltage_depend_loads=rng.random() < 0.6,
                     numba=rng.random() < 0.5, trafo_model=rng.choice(["t", "pi"]))
